@@ -132,8 +132,14 @@ func (g *gen) legacy(s store, addrKeys []string, ballots bool) {
 		s["ballots"] = ser(stackitem.NewArray(nil))
 	case r < 12:
 		s["ballots"] = ser(stackitem.NewArray([]stackitem.Item{mk(hx.Pick(g.rng, gaps))}))
-	case r < 17:
+	case r < 15:
 		s["ballots"] = ser(stackitem.NewArray([]stackitem.Item{mk(hx.Pick(g.rng, gaps[4:])), mk(hx.Pick(g.rng, gaps))}))
+	case r < 17: // any order, also the live ballot first and a stale one last
+		l := []stackitem.Item{mk(hx.Pick(g.rng, gaps)), mk(hx.Pick(g.rng, gaps[4:]))}
+		if g.rng.IntN(2) == 0 {
+			l = append(l, mk(hx.Pick(g.rng, gaps[4:])))
+		}
+		s["ballots"] = ser(stackitem.NewArray(l))
 	default:
 		if wf {
 			s["ballots"] = ser(stackitem.NewArray([]stackitem.Item{mk(21), mk(20)}))
@@ -905,6 +911,78 @@ func gateCases(t testing.TB, run *hx.Run, sc *chainx.Scratch, ci int) int {
 	return ci
 }
 
+// votePatterns: ballot lists of 0..4 entries, a = alive (at most blockDiff = 20 blocks old), s = stale: none, one,
+// all alive, all stale, alive-then-stale (the live one FIRST: what common.Vote leaves behind when an older voting gets
+// a fresh vote after a newer one was opened), stale-then-alive, alive in the middle, alive at both ends
+var votePatterns = []string{"", "a", "s", "aa", "ss", "as", "sa", "ass", "sas", "ssa", "asa", "aaa", "sss", "asss", "ssas", "sssa", "aaaa", "ssss"}
+
+// voteKinds: the contracts whose switchToNotary purges votes (Audit's does not look at ballots)
+var voteKinds = []string{"reputation", "neofsid", "balance", "container", "netmap", "alphabet"}
+
+// voteCases: a notary-disabled contract from below 0.17 with the `notary` flag set and a ballot list of every
+// alive/stale pattern; the heights sit at the boundary (alive: exactly 20 blocks back, also 19 and 0; stale: exactly 21,
+// also 22 and 500). The committee majority sends the upgrade: it must be refused iff ANY ballot is alive, wherever it
+// stands in the list. Quick: Reputation and NeoFSID (cheap worlds) x all patterns; thorough (first shard): all six.
+func voteCases(t testing.TB, run *hx.Run, sc *chainx.Scratch, ci int) int {
+	if common.PrevVersion >= 17000 {
+		return ci
+	}
+	kinds := voteKinds[:2]
+	if run.Tier == "thorough" {
+		if run.Shard != 0 {
+			return ci
+		}
+		kinds = voteKinds
+	}
+	for ki, kind := range kinds {
+		for pi, pat := range votePatterns {
+			ci++
+			rng := run.Rand(4_000_000 + ci)
+			n := []int{1, 4, 3, 7}[(ki+pi)%4]
+			cs := caseSpec{id: fmt.Sprintf("s%d.votes.%s.%s", run.Seed, kind, "p"+pat), kind: kind, n: n,
+				v: hx.Pick(rng, []int{common.PrevVersion, 16999}), wf: true}
+			if kind == "alphabet" {
+				cs.gas, cs.sn, cs.nnsProxy, cs.role = "100000000000", 1, true, ids(n)
+			}
+			w := startCase(t, run, sc, cs)
+			if w == nil {
+				continue
+			}
+			g := &gen{rng: rng, w: w, directed: 1}
+			seen := int(w.c.BC.BlockHeight()) + 1 // load in the next block, the update in the one after
+			st := fromScan(w.scan())
+			if kind == "netmap" {
+				st["balanceScriptHash"], st["containerScriptHash"] = g.bytesN(20), g.bytesN(20)
+				for i := 0; i < 10; i++ {
+					delete(st, "snapshot_"+string([]byte{byte(i)}))
+				}
+			}
+			st["notary"] = []byte{1}
+			var ballots []stackitem.Item
+			for i, c := range pat {
+				gap := []int{20, 19, 0, 20}[(i+pi)%4]
+				if c == 's' {
+					gap = []int{21, 22, 500, 21}[(i+pi)%4]
+				}
+				ballots = append(ballots, stackitem.NewStruct([]stackitem.Item{bs(g.bytesN(32)),
+					stackitem.NewArray([]stackitem.Item{bs(g.bytesN(33))}), in(int64(seen - gap))}))
+			}
+			if pat != "" || pi%2 == 0 {
+				st["ballots"] = ser(stackitem.NewArray(ballots))
+			}
+			line, obs := w.execOp(fmt.Sprintf("op load q=- kv=%s", fmtKVs(st.kvs())))
+			run.Op(line, obs)
+			data := "n"
+			if kind == "alphabet" {
+				data = g.data(cs)
+			}
+			line, obs = w.execOp(g.updateLine(required(cs), data, "ok", cs))
+			run.Op(line, obs)
+		}
+	}
+	return ci
+}
+
 // netmapCountCases: one in-quantifier Netmap case per stored snapshot count, from the oldest supported version (the
 // node structures are converted below 0.16 only), in every tier, shard and seed.
 func netmapCountCases(t testing.TB, run *hx.Run, sc *chainx.Scratch, ci int) int {
@@ -957,6 +1035,7 @@ func generate(t testing.TB, run *hx.Run, sc *chainx.Scratch) {
 		ci = dumpCases(t, run, sc)
 	}
 	ci = gateCases(t, run, sc, ci)
+	ci = voteCases(t, run, sc, ci)
 	ci = netmapCountCases(t, run, sc, ci)
 	ci = alphabetGasCases(t, run, sc, ci)
 	for _, k := range allKinds {
